@@ -270,6 +270,18 @@ fn recipes(ctx: &mut Ctx, conv: &Converter) {
             scaled.push(s);
             texts.push(sp.text);
         }
+        // one recipe of the sequence again with the case of every letter flipped: the same names in another case are
+        // different ingredients for the list (and for the aisle lookup)
+        if !texts.is_empty() && r.chance(1, 3) {
+            let flipped: String = texts[r.below(texts.len())].chars().map(|c| if c.is_lowercase() { c.to_uppercase().next().unwrap_or(c) } else { c.to_lowercase().next().unwrap_or(c) }).collect();
+            if let Ok(res) = crate::core::guarded(|| parser.parse(&flipped)) {
+                if res.is_valid() {
+                    scaled.push(res.into_output().unwrap().default_scale());
+                    texts.push(flipped);
+                    ctx.count("sequences_with_case_flipped_recipe");
+                }
+            }
+        }
         if scaled.is_empty() {
             continue;
         }
